@@ -12,7 +12,7 @@ def run(ctx):
                "the escape-free string model in P3/U1 is the restriction of REF-STR that S1-S4 establish for the assembly")
     ctx.assume("outside the claim (statement): ill-formed surrogate escapes, bytes >= 0x80 inside strings (passed through), \\v \\f and bytes >= 0x80 at the trimmed edges")
     lemma_sets_e1.stage1_lemmas(ctx, ctx.tier)
-    lemma_sets_e1.string_lemmas(ctx, ctx.tier)
+    lemma_sets_e1.string_lemmas(ctx, "quick")      # the deeper runs (3 decoder iterations) are C04's thorough tier
     ls = []
     ls += C03.p2_lemmas(ctx.tier, lengths=(list(range(2, 9)) if ctx.tier == "quick" else None), with_long=True)
     ls += lemmas_stage2.p3_lemmas(ctx.tier, ndjson=(0,))
